@@ -849,3 +849,28 @@ Example c12_nonvacuous_adaptive :
   aall_done ex_ac s = true /\ calls (ash s) = [0; 2] /\ req (ash s) = 2 /\ proc (ash s) = 2 /\
   results (ash s) 0 = [(0, OParse); (2, OOk)] /\ results (ash s) 1 = [(0, OParse); (2, OOk)].
 Proof. split; [repeat constructor|]. vm_compute. repeat split. Qed.
+
+(* adaptive requesters and the program regenerated from the source: the interpreter on the unfolded lists (every lookup
+   through fill_symbol) has, poll for poll, the shared state of the adaptive run — locks, remembered values, supplier log,
+   results, both counters, stats — and finishes exactly when it does *)
+From RM Require Import C12.AdaptSource.
+Theorem c12_adaptive_source_program : forall (N : nat) (ac : aconfig) (fuel : nat) (sched : list task),
+  N < fuel -> Forall (fun sg => ends N (outc (abase ac)) sg [] = true) (astrats ac) ->
+  sh_eq true (psh (prun src_program (fill_pc N ac) sched)) (ash (arun fuel ac sched)) /\
+  pall_done (fill_pc N ac) (prun src_program (fill_pc N ac) sched) = aall_done ac (arun fuel ac sched).
+Proof. exact adaptive_source. Qed.
+Print Assumptions c12_adaptive_source_program.
+
+(* the stats map for the interpreter on the regenerated program (symbol lookups through any entry point) *)
+Theorem c12_source_stats_sound : forall (pc : pconfig) (sched : list task) (lf : nat) (o : outcome), sym_only pc ->
+  stats (psh (prun src_program pc sched)) lf = Some o ->
+  exists k, In k (concat (tasks (cfg pc))) /\ leaf (pbase pc) k = lf /\ o = outc (pbase pc) k /\
+            value (psh (prun src_program pc sched)) k = Some o.
+Proof. exact src_stats_sound. Qed.
+Print Assumptions c12_source_stats_sound.
+
+Theorem c12_source_stats_complete : forall (pc : pconfig) (sched : list task) (k : key), sym_only pc ->
+  pall_done pc (prun src_program pc sched) = true -> In k (concat (tasks (cfg pc))) ->
+  stats (psh (prun src_program pc sched)) (leaf (pbase pc) k) <> None.
+Proof. exact src_stats_complete. Qed.
+Print Assumptions c12_source_stats_complete.
